@@ -42,10 +42,11 @@ fn names(tier: Tier) -> Vec<String> {
 }
 
 fn values(tier: Tier) -> Vec<String> {
-    let mut v: Vec<String> = vec!["".into(), "Va1".into(), "A:b".into()];
+    let mut v: Vec<String> = vec!["".into(), "Va1".into(), "A:b".into(), "12: 30".into()];
     if tier == Tier::Thorough {
         v.push(":".into());
         v.push("a  B".into());
+        v.push("x=1; note=\"k: v\", z".into());
         v.push("A\tb".into());
         v.push("w".repeat(1100));
     }
